@@ -89,6 +89,19 @@ def _str_int(eng, st, args, kw, node):
     yield st, V(INT, str_int(a.term))
 
 
+def _ghost(eng, st, args, kw, node):
+    from .contract import ghost_reader
+    yield from ghost_reader(eng, st, args, kw, node)
+
+
+def _policy_overridden(eng, st, args, kw, node):
+    """policy_overridden(obj, "slot"): has the function-valued slot been assigned on this path?"""
+    obj, slot = args
+    ok, name = concrete(slot)
+    owner, kind = eng.field_kind(obj.kind.cls, name)
+    yield st, const((f"{owner}.{name}", obj.term.get_id()) in st.pyheap)
+
+
 def default_names():
     return {
         "STR": STR, "INT": INT, "BOOL": BOOL, "REAL": REAL,
@@ -96,4 +109,5 @@ def default_names():
         "wf_map": handler(_wf_map, "wf_map"), "keys_of": handler(_keys_of, "keys_of"),
         "ite": handler(_ite, "ite"), "allocated": handler(_allocated, "allocated"),
         "str_is_int": handler(_str_is_int, "str_is_int"), "str_int": handler(_str_int, "str_int"),
+        "ghost": handler(_ghost, "ghost"), "policy_overridden": handler(_policy_overridden, "policy_overridden"),
     }
